@@ -1010,6 +1010,7 @@ def directed():
     add("entities", [anchor("http:&#x2F;&#x2F;b.org&#x2F;x"), anchor("/p?a=1&amp;b=&quot;2&quot;"), anchor("&#104;ttp://b.org/")])
     add("edge-entity-space", [anchor("&#32;/x&nbsp;"), anchor("&nbsp;http://b.org/x&#32;"), anchor("\xa0/y ")])
     add("lookalike-attrs", [anchor("/yes", pre=['data-href="/no"']), anchor("/yes2", post=['data-href="/no"', 'hreflang="fr"']), anchor("/yes3", pre=[DECOY_ATTR])])
+    add("very-long-hrefs", [anchor("/" + "a" * 3000), anchor("http://b.org/" + "é" * 1500, q="'"), anchor("/p?" + "k=v&amp;" * 500 + "z", q=""), anchor("/short")])
     add("decoy-attr-after", [anchor("/yes", post=[DECOY_ATTR])])
     add("decoy-only-then-anchor", [["n", '<a name="n" title="see href=/decoy">'], ["t", "y"], ["n", "</a>"], anchor("/z", q=""), ["n", "<a title='a href=/d1' data-x=\"b href=/d2\">"], anchor("/w", q="'", pre=[DECOY_ATTR], post=[DECOY_ATTR])])
     add("nonascii", [["t", "é\xa0ü"], anchor("/é?q=中", inner="中"), ["t", "ſ K"]])
